@@ -261,7 +261,44 @@ fn smith_text(bytes: &[u8]) -> String {
 pub fn gen_input(bytes: &[u8]) -> Input {
     let mut c = Choices::new(bytes);
     let opts = gschema::Opts { max_types: 4, ..Default::default() };
-    match c.weighted(&[10, 10, 8, 6, 10, 8, 8, 8, 16, 10, 6, 8]) {
+    match c.weighted(&[10, 10, 8, 6, 10, 8, 8, 8, 16, 10, 6, 8, 8]) {
+        12 => {
+            // beyond size thresholds (the field-merging code switches to a hash map above 20
+            // arguments): an input object with many required fields whose literal omits several of
+            // them, and a field with many arguments selected twice under one response key with
+            // several differing arguments: several diagnostics / several candidate culprits at ONE position
+            let n = 21 + c.choose(20);
+            let mut sdl = String::from("type Query { wide(");
+            for i in 0..n {
+                sdl.push_str(&format!("a{}: Int ", i));
+            }
+            sdl.push_str("): Int obj(o: Wide): Int }\ninput Wide { ");
+            for i in 0..n {
+                sdl.push_str(&format!("f{}: Int! ", i));
+            }
+            sdl.push_str("}\n");
+            let mut q = String::from("{ ");
+            // literal providing a random subset of the required fields
+            q.push_str("obj(o: {");
+            for i in 0..n {
+                if c.bool(150) {
+                    q.push_str(&format!("f{}: {} ", i, i));
+                }
+            }
+            q.push_str("}) ");
+            // same response key, k differing arguments
+            let mut a1 = String::new();
+            let mut a2 = String::new();
+            for i in 0..n {
+                let differs = c.bool(60);
+                if c.bool(200) {
+                    a1.push_str(&format!("a{}: {} ", i, i));
+                    a2.push_str(&format!("a{}: {} ", i, if differs { i + 1000 } else { i }));
+                }
+            }
+            q.push_str(&format!("x: wide({}) x: wide({}) }}", if a1.is_empty() { "a0: 1" } else { &a1 }, if a2.is_empty() { "a0: 2" } else { &a2 }));
+            Input { kind: "wide-input-objects-and-argument-lists", text: q, against: Some(sdl), smith: None }
+        }
         11 => {
             // several diagnostics at ONE source position whose relative order comes out of grouping by
             // type: a response key selected on an abstract parent that conflicts with the same key in
